@@ -226,7 +226,7 @@ def run_model(cmds, jobs=NPROC):
     return [l for o in outs for l in o]
 
 
-def run_impl(prop, cases, jobs=NPROC, what="obs"):
+def run_impl(prop, cases, jobs=NPROC, what="obs", scale=1.0, retry=True):
     """Runs props.<prop>.impl_obs / oracle on every case in worker processes that import formulae
     from REPO.  Returns a list of {"obs":..., "oracle":...} dicts (same order)."""
     if not cases:
@@ -238,7 +238,7 @@ def run_impl(prop, cases, jobs=NPROC, what="obs"):
                 "OMP_NUM_THREADS": "1", "OPENBLAS_NUM_THREADS": "1", "MKL_NUM_THREADS": "1"})
 
     def one(shard):
-        p = subprocess.run([PY, os.path.join(VERIF, "harness", "impl_worker.py"), prop, what],
+        p = subprocess.run([PY, os.path.join(VERIF, "harness", "impl_worker.py"), prop, what, str(scale)],
                            input="\n".join(json.dumps(c) for c in shard) + "\n",
                            stdout=subprocess.PIPE, stderr=subprocess.PIPE, text=True, env=env,
                            timeout=6000)
@@ -250,7 +250,17 @@ def run_impl(prop, cases, jobs=NPROC, what="obs"):
 
     with concurrent.futures.ThreadPoolExecutor(len(shards)) as ex:
         outs = list(ex.map(one, shards))
-    return [l for o in outs for l in o]
+    res = [l for o in outs for l in o]
+    # a per-case timeout on a loaded machine is not evidence of non-termination: run those cases
+    # again, alone, with eight times the limit
+    if retry:
+        slow = [i for i, r in enumerate(res) if r.get("obs") == ["timeout"] or
+                (isinstance(r.get("obs"), list) and r["obs"][:1] == ["worker-crash"])]
+        if slow and len(slow) <= 200:
+            again = run_impl(prop, [cases[i] for i in slow], jobs=min(jobs, 4), what=what, scale=8.0, retry=False)
+            for i, r in zip(slow, again):
+                res[i] = r
+    return res
 
 
 # --------------------------------------------------------------------------- known findings
